@@ -67,6 +67,12 @@ where
     blobs: Arc<RwLock<HierarchicalFilters<K, CombinedFilter<K>, Blob<K>>>>,
 }
 
+/// Requests to the observer, which should be sent after deletion
+struct DeleteFollowUp {
+    defer_index_dump: bool,
+    try_fsync: bool,
+}
+
 /// Helper struct to add names to result parameters
 struct ReadBlobsResult<K> 
 where
@@ -358,14 +364,23 @@ where
                 Err(e.into())
             }
         })?;
-        self.try_update_active_blob(blob).await?;
+        let update_required = self.is_active_blob_update_required(blob).await?;
+        // Requests to the observer are sent after the storage lock is released: the channel is bounded
+        // and the observer needs the exclusive lock to process the requests, so waiting for a free
+        // slot with the shared lock held would deadlock once the channel is full
+        drop(safe);
+        if update_required {
+            #[cfg(pearl_verif)]
+            crate::verif::buggify_yield("write.before_update_msg").await;
+            self.observer.try_update_active_blob().await;
+        }
         if self.inner.should_try_fsync(result.dirty_bytes) {
             self.observer.try_fsync_data().await;
         }
         Ok(())
     }
 
-    async fn try_update_active_blob(&self, active_blob: &Box<ASRwLock<Blob<K>>>) -> Result<()> {
+    async fn is_active_blob_update_required(&self, active_blob: &Box<ASRwLock<Blob<K>>>) -> Result<bool> {
         let config_max_size = self
             .inner
             .config
@@ -392,12 +407,10 @@ where
                 Err(d) => d,
             };
             if dur.as_millis() > self.inner.config.debounce_interval_ms() as u128 {
-                #[cfg(pearl_verif)]
-                crate::verif::buggify_yield("write.before_update_msg").await;
-                self.observer.try_update_active_blob().await;
+                return Ok(true);
             }
         }
-        Ok(())
+        Ok(false)
     }
 
     /// Reads the first found data matching given key.
@@ -1049,7 +1062,10 @@ where
             // Try read lock first
             let safe = self.inner.safe.read().await;
             if only_if_presented || safe.active_blob.is_some() {
-                return self.delete_core(&safe, key.as_ref(), timestamp, meta, only_if_presented).await;
+                let (deleted, follow_up) = self.delete_core(&safe, key.as_ref(), timestamp, meta, only_if_presented).await?;
+                drop(safe);
+                self.send_delete_follow_up(follow_up).await;
+                return Ok(deleted);
             }
         }
 
@@ -1060,26 +1076,37 @@ where
         if !only_if_presented {
             self.inner.ensure_active_blob_exists(&mut safe).await?;
         }
-        return self.delete_core(&mut safe, key.as_ref(), timestamp, meta, only_if_presented).await;
+        let (deleted, follow_up) = self.delete_core(&mut safe, key.as_ref(), timestamp, meta, only_if_presented).await?;
+        drop(safe);
+        self.send_delete_follow_up(follow_up).await;
+        return Ok(deleted);
+    }
+
+    /// Sends the requests caused by a deletion to the observer. Should be called after the storage lock
+    /// is released: the channel is bounded and the observer needs the exclusive lock to process requests
+    async fn send_delete_follow_up(&self, follow_up: DeleteFollowUp) {
+        if follow_up.defer_index_dump {
+            self.observer.defer_dump_old_blob_indexes().await;
+        }
+        if follow_up.try_fsync {
+            self.observer.try_fsync_data().await;
+        }
     }
 
     /// Core deletion logic, when lock on `Safe<K>` is acquired
-    async fn delete_core(&self, safe: &Safe<K>, key: &K, timestamp: BlobRecordTimestamp, meta: Option<Meta>, only_if_presented: bool) -> Result<u64> {
+    async fn delete_core(&self, safe: &Safe<K>, key: &K, timestamp: BlobRecordTimestamp, meta: Option<Meta>, only_if_presented: bool) -> Result<(u64, DeleteFollowUp)> {
         let deleted_in_active_result = Self::delete_in_active(safe, key, timestamp, meta.clone(), only_if_presented).await?;
         let deleted_in_active = deleted_in_active_result.as_ref().map(|r| if r.deleted { 1 } else { 0 }).unwrap_or(0);
         let deleted_in_closed = Self::delete_in_closed(safe, key, timestamp, meta).await?;
 
-        if deleted_in_closed > 0 {
-            self.observer.defer_dump_old_blob_indexes().await;
-        }
-        if let Some(result) = deleted_in_active_result {
-            if self.inner.should_try_fsync(result.dirty_bytes) {
-                self.observer.try_fsync_data().await;
-            }
-        }
+        let follow_up = DeleteFollowUp {
+            defer_index_dump: deleted_in_closed > 0,
+            try_fsync: deleted_in_active_result
+                .map_or(false, |result| self.inner.should_try_fsync(result.dirty_bytes)),
+        };
 
         debug!("{} deleted total", deleted_in_active + deleted_in_closed);
-        Ok(deleted_in_active + deleted_in_closed)
+        Ok((deleted_in_active + deleted_in_closed, follow_up))
     }
 
     async fn delete_in_closed(safe: &Safe<K>, key: &K, timestamp: BlobRecordTimestamp, meta: Option<Meta>) -> Result<u64> {
